@@ -25,15 +25,19 @@ pub fn gen_cfg(rng: &mut Rng, allow_sizes: &[usize]) -> String {
     }
     let sd = if rng.chance(1, 2) { Some(*rng.pick(&[0u32, 1, 1_500_000_000, 1_600_000_000, 1_699_999_999, 1_800_000_000, u32::MAX])) } else { None };
     if let Some(sd) = sd { t.push(format!("sd={}", sd)); if rng.chance(1, 2) { t.push("sdlast".to_string()); } }
-    let comp = match rng.below(6) {
+    let comp = match rng.below(8) {
         0 => "none".to_string(),
         1 => format!("gzip:{}", rng.below(10)),
         2 => format!("zstd:{}", rng.pick(&[-5i32, 1, 3, 19, 22])),
         3 => format!("xz:{}", rng.below(10)),
         4 => format!("bzip2:{}", 1 + rng.below(9)),
+        // `compression(CompressionType::X)`: the level is the library's default for the type
+        5 => format!("{}:d", rng.pick(&["none", "gzip", "zstd", "xz", "bzip2"])),
+        // no `compression(..)` call at all: `CompressionWithLevel::default()`
+        6 => String::new(),
         _ => "gzip:9".to_string(),
     };
-    t.push(format!("c={}", comp));
+    if !comp.is_empty() { t.push(format!("c={}", comp)); }
     // files
     let nfiles = rng.below(7);
     let dirs = ["/", "/usr/bin/", "/etc/", "/opt/a/b/c/", "/ü/", "/usr/share/doc/pkg/"];
@@ -46,22 +50,30 @@ pub fn gen_cfg(rng: &mut Rng, allow_sizes: &[usize]) -> String {
             1 => plain.replacen('/', "//", 1),          // doubled separator
             _ => plain,
         };
-        let mode = match rng.below(5) {
-            0 => format!("i{}", rng.pick(&[0o644u32, 0o755, 0o600, 0o4755])),
+        let mode = match rng.below(8) {
+            // inherited: the source file carries the permission bits, set-uid / set-gid / sticky included
+            0 => format!("i{}", rng.pick(&[0o644u32, 0o755, 0o600, 0o4755, 0o2755, 0o1777, 0o7777, 0])),
             1 => format!("{}", 0o100000 | rng.pick(&[0o644i32, 0o755, 0o7777, 0])),
             2 => format!("{}", 0o040755),
             3 => format!("{}", 0o120777),
+            // `mode(i32)` outside 16 bits (→ FileMode::Invalid): the header word and the cpio c_mode are its low 16 bits
+            4 => format!("{}", rng.pick(&[0o271664i32, 0x7fff_ffff, -1, -32769, 65536 + 0o100644, -32768, 65535, i32::MIN, 65536])),
+            // the mode() call before / after the other setters, and through From<u16>
+            5 => format!("{}{}", rng.pick(&["f", "l"]), 0o100000 | rng.pick(&[0o644i32, 0o750, 0o4711])),
+            6 => format!("u{}", rng.pick(&[0o100644u32, 0o040700, 0o120777, 0o010644, 0])),
             _ => format!("{}", 0o100644),
         };
         let link = if mode == format!("{}", 0o120777) { "/usr/bin/target" } else { "" };
-        let flags = *rng.pick(&[0u32, 0, 0, 1, 2, 17, 64, 128, 256, 3, 130]);
+        let flags = *rng.pick(&["0", "0", "0", "config", "doc", "config_noreplace", "ghost", "license", "readme", "doc+config", "license+doc",
+                                "config_noreplace+ghost", "readme+doc+config", "17", "130"]);
         let caps = if rng.chance(1, 5) { h(*rng.pick(&["cap_chown=p", "cap_sys_admin,cap_sys_ptrace=pe", "=e"])) } else { "~".to_string() };
         let mtime = *rng.pick(&[0u32, 1_400_000_000, 1_599_999_999, 1_600_000_000, 1_600_000_001, 1_750_000_000]);
+        let extras = if rng.chance(1, 4) { format!(":ns={}", rng.pick(&[1u32, 500_000_000, 999_999_999])) } else { String::new() };
         let size = *rng.pick(allow_sizes);
         let vf = if rng.chance(1, 6) { format!("{}", rng.pick(&[0u32, 1, 0xffff_ffff, 96])) } else { "~".to_string() };
         t.push(format!(
-            "f={}:{}:{}:{}:{}:{}:{}:{}:{}:{}:{}",
-            h(&dest), mode, h(*rng.pick(&users)), h(*rng.pick(&users)), flags, caps, h(link), mtime, rng.below(1000), size, vf
+            "f={}:{}:{}:{}:{}:{}:{}:{}:{}:{}:{}{}",
+            h(&dest), mode, h(*rng.pick(&users)), h(*rng.pick(&users)), flags, caps, h(link), mtime, rng.below(1000), size, vf, extras
         ));
     }
     // dependencies of all eight kinds
@@ -152,7 +164,53 @@ pub fn eval(op: &str, a: &[&str]) -> Option<String> {
     }
 }
 
+/// `with_file` beyond the well-behaved source: file times outside what a `Timestamp` holds (an `Err`, nothing built), the
+/// last / first representable seconds, a directory or a missing path as source, and the error of one file among good ones
+fn gen_sources(ctx: &mut Ctx) {
+    fn h(s: &str) -> String { hx(s.as_bytes()) }
+    let head = format!("n={} v={} l={} a={} s={} now=1700000000", h("p"), h("1"), h("MIT"), h("noarch"), h("s"));
+    let root = h("root");
+    let good = format!("f={}:33188:{}:{}:0:~:-:1500000000:4:5:~", h("/opt/good"), root, root);
+    let mut k = 0u64;
+    for (mt, ns) in [(-1i64, 999_999_999u32), (-1, 0), (-2, 1), (-86_400, 0), (-2_147_483_648, 0), (0, 0), (0, 999_999_999), (1, 0),
+                     (2_147_483_647, 5), (2_147_483_648, 0), (4_294_967_295, 0), (4_294_967_295, 999_999_999), (4_294_967_296, 0),
+                     (4_294_967_296, 1), (4_294_967_297, 0), (10_000_000_000, 0), (15_032_385_535, 0)] {
+        // (`i<perm>`: the permission word in DECIMAL, like every number of the token: 420 = 0o644, 2541 = 0o4755)
+        for (mode, sd) in [("i420", ""), ("33261", " sd=1600000000"), ("i2541", " sd=0 sdlast")] {
+            k += 1;
+            if k % ctx.shard.1 != ctx.shard.0 { continue; }
+            let f = format!("f={}:{}:{}:{}:doc:~:-:{}:{}:7:~:ns={}", h("/usr/share/x"), mode, root, root, mt, k, ns);
+            ctx.req(&format!("build {}{} c=none {}", head, sd, f));
+            if k % 3 == 0 { ctx.req(&format!("build {}{} c=gzip:d {} {}", head, sd, good, f)); }
+        }
+    }
+    for kind in ["dir", "missing"] {
+        for mode in ["i493", "33188", "f33188"] {
+            k += 1;
+            if k % ctx.shard.1 != ctx.shard.0 { continue; }
+            let f = format!("f={}:{}:{}:{}:0:~:-:1500000000:{}:3:~:k={}", h("/opt/x"), mode, root, root, k, kind);
+            ctx.req(&format!("build {} c=none {}", head, f));
+            ctx.req(&format!("build {} {} {}", head, good, f));
+        }
+    }
+    // every default: no compression() call, compression(CompressionType::X) for every X, alone and with files
+    for c in ["", " c=none:d", " c=gzip:d", " c=zstd:d", " c=xz:d", " c=bzip2:d"] {
+        k += 1;
+        if k % ctx.shard.1 != ctx.shard.0 { continue; }
+        ctx.req(&format!("build {}{}", head, c));
+        ctx.req(&format!("build {}{} {}", head, c, good));
+    }
+    // bare FileOptions::new(dest): every default is read back
+    for (i, mode) in ["i420", "i2541", "i0", "i4095", "i896", "i1023", "i512"].iter().enumerate() {
+        k += 1;
+        if k % ctx.shard.1 != ctx.shard.0 { continue; }
+        ctx.req(&format!("build {} c=none f={}:{}:{}:{}:0:~:-:1234567890:{}:9:~", head, h("/bare"), mode, root, root, 2 * i));
+    }
+}
+
 pub fn gen(ctx: &mut Ctx) {
+    gen_sources(ctx);
+    crate::c17::gen_wfile(ctx, "wfile6");
     let (_si, sn) = ctx.shard;
     if _si == 0 {
         // the public Dependency constructors: every constructor under every builder method, then every constructor over
